@@ -2061,6 +2061,34 @@ fn run_case(c: &Case) -> String {
                                         None => out(&mut buf, "REUSE same"),
                                         Some(v) => out(&mut buf, &format!("REUSE DIFFERENT {v}")),
                                     }
+                                    // a signal list taken from ANOTHER bound test carries that test's declared (virtual) signals: the
+                                    // program with its `declare` lines blanked out, bound to this test's own full list, runs the same
+                                    if c.src.contains("declare") {
+                                        let src2: String = c
+                                            .src
+                                            .split('\n')
+                                            .map(|l| if l.trim_start().starts_with("declare ") && l.trim_end().ends_with(';') && !l.contains('#') { "" } else { l })
+                                            .collect::<Vec<_>>()
+                                            .join("\n");
+                                        // (a declaration in the TEXT makes the outputs it reads "read outputs" which the driver's first answer
+                                        // must contain; one that comes with the list does not: only runs whose construction succeeds are compared)
+                                        if src2 != c.src && !src2.contains("declare") && a.lines().any(|l| l == "NEW ok") {
+                                            let list = fresh.signals.clone();
+                                            let t2 = catch_unwind(AssertUnwindSafe(|| ParsedTestCase::from_str(&src2).ok().and_then(|p| p.with_signals(list).ok()))).unwrap_or(None);
+                                            if let Some(t2) = t2 {
+                                                let b = run_one(&t2);
+                                                if b == a {
+                                                    out(&mut buf, "VLIST same");
+                                                } else {
+                                                    let (la, lb): (Vec<&str>, Vec<&str>) = (a.lines().collect(), b.lines().collect());
+                                                    let i = (0..la.len().min(lb.len())).find(|&i| la[i] != lb[i]).unwrap_or(la.len().min(lb.len()));
+                                                    out(&mut buf, &format!("VLIST DIFFERENT line {i}: [{:.70}] vs [{:.70}]", lb.get(i).unwrap_or(&"<end>"), la.get(i).unwrap_or(&"<end>")));
+                                                }
+                                            } else {
+                                                out(&mut buf, "VLIST REFUSED");
+                                            }
+                                        }
+                                    }
                                     // `name` is a public field as well: once a test is bound, its rows go by position; a program that
                                     // reads no output by name runs the same after an input and an output have been renamed (the
                                     // driver is built from the renamed list and answers under the new names)
